@@ -247,13 +247,28 @@ func debCompare(a, b string) string {
 	return sign(x.Compare(y))
 }
 
-var arches = []string{"x86_64", "aarch64", "noarch", "i686", "s390x"}
+var arches = []string{"x86_64", "aarch64", "noarch", "i686", "s390x", "ppc64le", "armv7hl", "i386"}
+
+// fragArches are legal architecture names that are fragments of others
+// (ppc64 / ppc64le, s390 / s390x, arm / armv7hl, x86 / x86_64): what an
+// unanchored pattern match must tell apart.
+var fragArches = []string{"ppc64", "s390", "arm", "ppc", "x86", "armv7", "i3", "64", "aarch64_be", "ppc64le", "s390x", "x86_64"}
+
+// archPatterns: what the feeds write (plain alternations), anchored forms,
+// bare fragments, and patterns with real regexp syntax / syntax errors.
+var archPatterns = []string{
+	"aarch64|ppc64le|s390x|x86_64", "x86_64|ppc64le", "x86_64|aarch64", "i386|i686|x86_64", "armv7hl|aarch64", "s390x|ppc64le",
+	"aarch64|ppc64le|s390x|x86_64", "x86_64|ppc64le", // (weighted)
+	"x86", "ppc64", "noarch", "x86_64", "arm|s390", "x86_64|", "|",
+	"^(x86_64|ppc64le)$", "^(aarch64|ppc64le|s390x|x86_64)$", "(i386|i686)", "ppc64(le)?", "s390x?", ".*", "x86.64",
+	"(", "[a-", "*",
+}
 
 // genArch picks (record arch, advisory arch, operation) covering every branch
 // of ArchOp.Cmp.
 func (e *env) genArch() (string, string, claircore.ArchOp) {
 	rnd := e.rnd
-	switch c := rnd.Intn(20); {
+	switch c := rnd.Intn(24); {
 	case c < 6: // advisory names no architecture
 		return rnd.Pick(append(arches, "")...), "", claircore.ArchOp(rnd.Intn(4))
 	case c < 8: // package has no architecture
@@ -265,8 +280,12 @@ func (e *env) genArch() (string, string, claircore.ArchOp) {
 			b = rnd.Pick(arches...)
 		}
 		return a, b, claircore.ArchOp(1 + rnd.Intn(2))
-	case c < 19:
-		return rnd.Pick(arches...), rnd.Pick("x86_64|aarch64", "aarch64|ppc64le|s390x|x86_64", "i386|i686|x86_64", "noarch", "x86_64", "(", "^(x86_64)$", ".*", "[a-"), claircore.OpPatternMatch
+	case c < 23:
+		a := rnd.Pick(arches...)
+		if rnd.Chance(1, 2) {
+			a = rnd.Pick(fragArches...)
+		}
+		return a, archPatterns[rnd.Intn(len(archPatterns))], claircore.OpPatternMatch
 	default:
 		return rnd.Pick(arches...), rnd.Pick(arches...), claircore.ArchOp(rnd.Intn(6))
 	}
@@ -551,7 +570,7 @@ func (e *env) archOps(n int) {
 		r.Op(fmt.Sprintf("archop %d %s %s %s", uint(op), hexs(a), hexs(b), reOutcome(b, a)), got, true)
 		r.Count("archop:" + got)
 		if got != fmt.Sprint(archExpected(op, a, b)) {
-			r.Fail("", fmt.Sprintf("archop: ArchOp(%d).Cmp(%q,%q)=%s", uint(op), a, b, got))
+			r.Fail("", fmt.Sprintf("archop: ArchOp(%d).Cmp(%q,%q)=%s, regexp.MatchString / the operation's definition says %v", uint(op), a, b, got, archExpected(op, a, b)))
 		}
 	}
 }
@@ -588,6 +607,7 @@ func Run(cfg hx.Config) error {
 	e.apkMatcherOps(cfg.N(40, 2000))
 	e.rangeOps(cfg.N(1500, 150000))
 	e.ctlOps(cfg.N(25, 1500))
+	e.multiRecordOps(cfg.N(40, 2000))
 	e.urlQueryOps(cfg.N(600, 20000))
 	e.osvMatcherOps(cfg.N(30, 2000))
 	e.osvFreeOps(cfg.N(1500, 100000))
@@ -1241,6 +1261,30 @@ func (e *env) corpus() error {
 					})
 				} else {
 					e.r.Op(line, call(m, p, a, rc), true)
+				}
+			case w[0] == "osvx" && len(w) == 5:
+				var sc *langScheme
+				for _, x := range langSchemes() {
+					if x.name == w[1] {
+						x := x
+						sc = &x
+					}
+				}
+				if sc == nil {
+					return fmt.Errorf("corpus %s: unknown ecosystem %q", f, w[1])
+				}
+				got := e.osvCall(*sc, undash(w[2]), undash(w[3]))
+				if got != w[4] {
+					e.r.Fail("", fmt.Sprintf("%s: Vulnerable(package %q, FixedInVersion %q)=%s, the version scheme says %s", w[1], w[2], w[3], got, w[4]))
+				}
+			case w[0] == "archop" && len(w) == 4:
+				var opn uint
+				fmt.Sscan(w[1], &opn)
+				op, a, b := claircore.ArchOp(opn), undash(w[2]), undash(w[3])
+				got := timed(5*time.Second, func() string { return fmt.Sprint(op.Cmp(a, b)) })
+				e.r.Op(fmt.Sprintf("archop %d %s %s %s", opn, hexs(a), hexs(b), reOutcome(b, a)), got, true)
+				if got != fmt.Sprint(archExpected(op, a, b)) {
+					e.r.Fail("", fmt.Sprintf("archop: ArchOp(%d).Cmp(%q,%q)=%s, regexp.MatchString says %v", opn, a, b, got, archExpected(op, a, b)))
 				}
 			default:
 				return fmt.Errorf("corpus %s: bad line %q", f, line)
